@@ -86,6 +86,16 @@ def coord(i, lg):
 
 def gen_analytic(rng, dim, lg, rich=True):
     """a function-free analytic expression of the coordinates"""
+    if dim >= 2 and rng.random() < 0.12:
+        # multilinear: degree <= 1 in every coordinate separately, but with mixed second derivatives (x*y, x + y*z)
+        cs = [coord(i, lg) for i in range(dim)]
+        rng.shuffle(cs)
+        t = [{"k": "mul", "a": [X.num(rng.choice([1, 2, -3]))] + cs[: rng.randint(2, dim)]}]
+        if rng.random() < 0.5:
+            t.append(cs[-1])
+        if rng.random() < 0.3:
+            t.append({"k": "at", "t": "const", "name": "alpha"})
+        return t[0] if len(t) == 1 else {"k": "add", "a": t}
     terms = []
     for _ in range(rng.randint(1, 3 if rich else 2)):
         fs = []
